@@ -64,7 +64,7 @@ def sum_ps(m):
 
 
 # ----------------------------------------------------------------------------- wap
-@contract("flumine/utils.py::wap", tags=["C05", "C04", "C06"])
+@contract("flumine/utils.py::wap", tags=["C05", "C04", "C06", "C08", "C09"])
 def _(matched: ListOf(Ref("Fragment"))) -> Tup(REAL, REAL):
     invariant(0, "running_sums", a == sum_(lambda j: matched[j][1] * matched[j][2], 0, _i0) and b == sum_(lambda j: matched[j][2], 0, _i0))
     ensures("empty_or_zero", implies(len(matched) == 0 or sum_sizes(matched) == 0 or sum_ps(matched) == 0, result[0] == 0 and result[1] == 0))
@@ -73,7 +73,7 @@ def _(matched: ListOf(Ref("Fragment"))) -> Tup(REAL, REAL):
 
 
 # ----------------------------------------------------------------------------- cancel
-@contract("flumine/simulation/simulatedorder.py::SimulatedOrder.cancel", tags=["C04", "C02"])
+@contract("flumine/simulation/simulatedorder.py::SimulatedOrder.cancel", tags=["C04", "C02", "C08", "C09"])
 def _(self, market_book: Ref("MarketBook")) -> Ref("SimulatedCancelResponse"):
     requires("inv4", implies(is_limit_so(self), Inv4(self)))
     requires("reduction_on_grid", implies(self.order.update_data["size_reduction"] is not None,
@@ -104,7 +104,7 @@ def matched_ok(so):
 
 
 # ----------------------------------------------------------------------------- _update_matched
-@contract("flumine/simulation/simulatedorder.py::SimulatedOrder._update_matched", tags=["C04", "C05", "C06"])
+@contract("flumine/simulation/simulatedorder.py::SimulatedOrder._update_matched", tags=["C04", "C05", "C06", "C08", "C09"])
 def _(self, data: Ref("Fragment")):
     requires("fragment_ok", data[1] > 0 and data[2] >= 0)
     requires("matched_ok", matched_ok(self))
@@ -124,7 +124,7 @@ def inv_so(so):
     return matched_ok(so) and implies(is_limit_so(so), Inv4(so) and so.order.order_type.price is not None and so.order.order_type.price >= 1.01)  # D1: prices are >= 1.01
 
 
-@contract("flumine/simulation/simulatedorder.py::SimulatedOrder._create_place_response", tags=["C04", "C05"])
+@contract("flumine/simulation/simulatedorder.py::SimulatedOrder._create_place_response", tags=["C04", "C05", "C08"])
 def _(self, bet_id: Opt(INT), status: ATOM = "SUCCESS", order_status: Opt(ATOM) = None, error_code: Opt(ATOM) = None) -> Ref("SimulatedPlaceResponse"):
     requires("has_client", self.order.client is not None)
     requires("inv", inv_so(self))
@@ -495,7 +495,7 @@ def _(self, market_book: Ref("MarketBook"), runner_traded: Tup(Ref("RunnerBook")
 
 
 # ----------------------------------------------------------------------------- size_remaining (the derived fifth bucket)
-@contract("flumine/simulation/simulatedorder.py::SimulatedOrder.size_remaining", tags=["C04", "C05", "C06"])
+@contract("flumine/simulation/simulatedorder.py::SimulatedOrder.size_remaining", tags=["C04", "C05", "C06", "C08", "C09"])
 def _(self) -> REAL:
     requires("limit_orders_have_a_size", implies(is_limit_so(self), S(self) is not None and S(self) > 0))
     ensures("defined_as_the_rest", result == (R(self) if is_limit_so(self) else 0))
